@@ -317,10 +317,6 @@ theorem del_of_ok {s₀ : SStore M} {c : Config M} (h : Inv s₀ c) {t n : Nat} 
 
 /-! ### Presence persists until a Delete -/
 
-def opId : Op M → Nat
-  | .upd u => u.id
-  | .del d => d.id
-
 theorem specStep_other (op : Op M) (s : SStore M) {i : Nat} (h : opId op ≠ i) : (specStep op s).2 i = s i := by
   cases op with
   | upd u =>
@@ -382,6 +378,48 @@ theorem present_persists (s₀ : SStore M) (log : List (Entry M)) (i a : Nat) :
       · exact ih (by omega) (by omega) hs (fun k e d h1 h2 => hnd k e d h1 (by omega))
       · intro d hd
         exact hnd b log[b] d (by omega) (by omega) hget hd
+
+/-- commits on other ids do not touch the cell of `i` -/
+theorem replay_quiet (s₀ : SStore M) (log : List (Entry M)) (i a : Nat) :
+    ∀ b, a ≤ b → b ≤ log.length →
+      (∀ k e, a ≤ k → k < b → log[k]? = some e → opId e.op ≠ i) →
+      (replay s₀ (log.take b)) i = (replay s₀ (log.take a)) i := by
+  intro b
+  induction b with
+  | zero =>
+    intro hab _ _
+    have : a = 0 := by omega
+    subst this; rfl
+  | succ b ih =>
+    intro hab hb hq
+    by_cases heq : a = b + 1
+    · subst heq; rfl
+    · have hlt : b < log.length := by omega
+      have hget : log[b]? = some log[b] := List.getElem?_eq_getElem hlt
+      rw [take_succ_of_getElem? hget, replay_snoc]
+      rw [specStep_other _ _ (hq b log[b] (by omega) (by omega) hget)]
+      exact ih (by omega) (by omega) (fun k e h1 h2 => hq k e h1 (by omega))
+
+/-- the specification's verdict on a call depends only on the cell of its id -/
+theorem specStep_res_congr (op : Op M) {s₁ s₂ : SStore M} (h : s₁ (opId op) = s₂ (opId op)) :
+    (specStep op s₁).1 = (specStep op s₂).1 := by
+  cases op with
+  | upd u =>
+    simp only [opId] at h
+    simp only [specStep, specUpd, h]
+    cases specRead u (s₂ u.id) with
+    | error e => rfl
+    | ok old =>
+      simp only []
+      cases u.change old <;> rfl
+  | del d =>
+    simp only [opId] at h
+    simp only [specStep, specDel, h]
+    cases s₂ d.id with
+    | none => by_cases ham : d.allowMissing <;> simp [ham]
+    | some b =>
+      simp only []
+      cases d.pre b <;> rfl
 
 theorem add_exclusive {s₀ : SStore M} {c : Config M} (h : Inv s₀ c)
     {t₁ n₁ t₂ n₂ : Nat} {r₁ r₂ : Rec M} {u₁ u₂ : UpdOp M} {v₁ v₂ : M}
